@@ -325,25 +325,26 @@ def check(ctx):
                         'port names are handed over in (provides, requires) order' if ok else
                         f'match({a0}, {a1}) against parameters {params}', node=c)
         pt = prog.func('ast_view', 'portnames_t')
-        # which local set becomes which field of PortNames(provides=..., requires=...)
-        role_of: Dict[str, str] = {}
-        for c in iter_own_nodes(pt.node):
-            if isinstance(c, ast.Call) and prog.resolve_expr_symbol(pt.module, c.func) is prog.cls('ast_view', 'PortNames'):
-                flds = list(prog.class_fields(prog.cls('ast_view', 'PortNames')))
-                for i, a in enumerate(c.args):
-                    if isinstance(a, ast.Name) and i < len(flds):
-                        role_of[a.id] = flds[i]
-                for k in c.keywords:
-                    if k.arg and isinstance(k.value, ast.Name):
-                        role_of[k.value.id] = k.arg
-        for c in iter_own_nodes(pt.node):
-            if isinstance(c, ast.Call) and isinstance(c.func, ast.Attribute) and c.func.attr == 'add':
-                tgt = role_of.get(ast.unparse(c.func.value), ast.unparse(c.func.value))
-                facts = [ast.unparse(f) for f, p in abs_.facts_at(c) if p]
-                ok = any(f'PortDirection.{tgt.upper()}' in f for f in facts) and c.args and ast.unparse(c.args[0]).endswith('.name')
-                run.add('C03.sides', pt.module.name, pt.qualname, c, ok,
-                        f'{tgt} names are the names of the {tgt} ports' if ok else
-                        f'`{ast.unparse(c)}` is not under the matching direction test', node=c)
+        if not _portnames_semantics(ctx, pt):
+            # which local set becomes which field of PortNames(provides=..., requires=...)
+            role_of: Dict[str, str] = {}
+            for c in iter_own_nodes(pt.node):
+                if isinstance(c, ast.Call) and prog.resolve_expr_symbol(pt.module, c.func) is prog.cls('ast_view', 'PortNames'):
+                    flds = list(prog.class_fields(prog.cls('ast_view', 'PortNames')))
+                    for i, a in enumerate(c.args):
+                        if isinstance(a, ast.Name) and i < len(flds):
+                            role_of[a.id] = flds[i]
+                    for k in c.keywords:
+                        if k.arg and isinstance(k.value, ast.Name):
+                            role_of[k.value.id] = k.arg
+            for c in iter_own_nodes(pt.node):
+                if isinstance(c, ast.Call) and isinstance(c.func, ast.Attribute) and c.func.attr == 'add':
+                    tgt = role_of.get(ast.unparse(c.func.value), ast.unparse(c.func.value))
+                    facts = [ast.unparse(f) for f, p in abs_.facts_at(c) if p]
+                    ok = any(f'PortDirection.{tgt.upper()}' in f for f in facts) and c.args and ast.unparse(c.args[0]).endswith('.name')
+                    run.add('C03.sides', pt.module.name, pt.qualname, c, ok,
+                            f'{tgt} names are the names of the {tgt} ports' if ok else
+                            f'`{ast.unparse(c)}` is not under the matching direction test', node=c)
     run.floor('C03.sides', 5)
 
     # ---- C03.lookup / C03.injected ------------------------------------------------------------------------------------------------------
@@ -917,3 +918,50 @@ def _rejects(ctx, ex, psc: ClassInfo, pc: ClassInfo, adv_err: ClassInfo):
         run.add('C03.rejects', psel.module.name, 'PortSelect.__post_init__', hit if hit is not None else label, hit is not None,
                 f'{label}: rejected with AdvShellError' if hit is not None else f'{label} is not rejected')
     run.floor('C03.rejects', 6)
+
+
+
+def _portnames_semantics(ctx, pt: FuncInfo) -> bool:
+    """portnames_t interpreted (dznverif.scenario, E7) on port lists of length 0 to 4 in every order of directions
+    (provides / requires, injected or not; the code only compares the direction of a port and stores its name): the provides
+    names are exactly the names of the provides ports and the requires names those of the requires ports - wherever in the
+    declaration order they stand.  False when the function cannot be interpreted: the shape rule decides then."""
+    from ..scenario import Interp, EnumV, Obj, Raised, Undecided
+    import itertools
+    run, prog = ctx.run, ctx.prog
+    try:
+        ports_cls, port_cls = prog.cls('ast', 'Ports'), prog.cls('ast', 'Port')
+        pd = prog.cls('ast', 'PortDirection')
+    except Exception:       # pylint: disable=broad-except
+        return False
+    bad: List[str] = []
+    n = 0
+    try:
+        for length in range(0, 5):
+            for dirs in itertools.product(('PROVIDES', 'REQUIRES'), repeat=length):
+                it = Interp(prog)
+                elements = [Obj(port_cls, {'name': f'p{i}', 'direction': EnumV(pd, d)}) for i, d in enumerate(dirs)]
+                ports = Obj(ports_cls, {'elements': elements})
+                n += 1
+                label = '[' + ', '.join(f'{d.lower()} p{i}' for i, d in enumerate(dirs)) + ']'
+                try:
+                    res = it.call_function(pt, [ports], {})
+                except Raised as exc:
+                    bad.append(f'ports {label}: raises {exc.name.split(".")[-1]}')
+                    continue
+                if not isinstance(res, Obj):
+                    raise Undecided('portnames_t does not return a PortNames')
+                for side in ('provides', 'requires'):
+                    got = res.fields.get(side)
+                    if not isinstance(got, (set, frozenset, list, tuple)):
+                        raise Undecided(f'PortNames.{side} is no collection')
+                    want = {f'p{i}' for i, d in enumerate(dirs) if d == side.upper()}
+                    if set(got) != want:
+                        bad.append(f'ports {label}: {side} names are {sorted(got)}, expected {sorted(want)}')
+    except Undecided as exc:
+        run.remark(f'C03: portnames_t could not be interpreted ({exc}); the shape rule decides')
+        return False
+    run.add('C03.sides', pt.module.name, pt.qualname, f'{n} port lists (every order of directions up to four ports)', not bad,
+            'the provides / requires name sets are exactly the names of the provides / requires ports, in whatever order the ports are declared'
+            if not bad else 'the per-side name sets lose or misplace ports: ' + '; '.join(bad[:2]))
+    return True
